@@ -19,7 +19,9 @@ TOOLBIN = None
 for tc in sorted(glob.glob(os.path.expanduser("~/.rustup/toolchains/nightly-x86_64*/lib/rustlib/x86_64-unknown-linux-gnu/bin"))):
     if os.path.exists(os.path.join(tc, "llvm-profdata")):
         TOOLBIN = tc
-ENV = dict(os.environ, CARGO_NET_OFFLINE="true", RUSTFLAGS="-C instrument-coverage")
+# build scripts and proc macros are instrumented too and would drop default_*.profraw into their package directory (/repo!): send those to the scratch dir
+ENV = dict(os.environ, CARGO_NET_OFFLINE="true", RUSTFLAGS="-C instrument-coverage",
+           LLVM_PROFILE_FILE=os.path.join(ROOT, "harness", "target", "cov", "build-%p-%m.profraw"))
 
 
 def sh(cmd, **kw):
